@@ -213,9 +213,11 @@ class TargetDatabase:
 
                 definition = definitions[0]
                 uri = definition.fileid.as_dirhtml()
-                dispname: Optional[str] = "".join(
-                    node.get_text() for node in definition.title
-                )
+                # One line of the inventory has to carry it: a title that runs over two lines
+                # (a long directive argument) is exported with its whitespace normalized
+                dispname: Optional[str] = normalize_target(
+                    "".join(node.get_text() for node in definition.title)
+                ).strip()
                 domain, role_name, name = key.split(":", 2)
 
                 if not dispname:
